@@ -10,6 +10,11 @@ PROP = ['C01_TerminalFinal']
 def run(tier, seed):
     plans_re = core_check.reentrant_plans(core_check.REENTRANT_HOOKS, C.REQS4)
     allreq = core_model.ALL_REQUESTS
+    pe = core_model.plan_entry
+    # what the library swallows (a listener or a cleanup callback that raises) opens no way out of a terminal state either
+    silent = [[]] + [[pe(h, o, 'fault', 'X')] for h in ('L_finished', 'L_killed', 'L_excepted', 'L_running', 'cleanup') for o in (1, 2)]
+    sil = dict(name='C01_swallowed', progs=C.fam(['P01', 'P03', 'P07', 'P08', 'P26'] if tier == 'quick' else C.ALL + ['P26']), plans=silent,
+               alphabet=['kill', 'fail', 'cbraise', 'pause', 'play'], k=1 if tier == 'quick' else 2)
     if tier == 'quick':
         mc = [dict(name='C01_env', progs=C.fam(C.ALL), plans=[[]], alphabet=allreq, k=3, invariants=INV, properties=PROP),
               dict(name='C01_reentrant', progs=C.fam(C.SMALL), plans=plans_re, alphabet=allreq, k=1, invariants=INV, properties=PROP)]
@@ -20,6 +25,8 @@ def run(tier, seed):
               dict(name='C01_reentrant', progs=C.fam(C.ALL), plans=plans_re, alphabet=allreq, k=2, invariants=INV, properties=PROP)]
         rp = [dict(name='C01_env', progs=C.fam(C.ALL), plans=[[]], alphabet=allreq, k=3),
               dict(name='C01_reentrant', progs=C.fam(C.SMALL), plans=plans_re, alphabet=allreq, k=1)]
+    mc.append(dict(sil, invariants=INV, properties=PROP))
+    rp.append(sil)
     return core_check.run_check(
         PID, tier, seed, mc, rp,
         level_text='TLC exhaustive + replay of every behaviour of the dumped state graphs into the real Process',
